@@ -6,43 +6,43 @@ V = "/verif"
 CLAIMS = {
  "C01": ("FLOOR-A + CONST-AGREE + MONTH-TABLE + E5 (interval/dataflow and table rules over rustc MIR)",
          "Narrow structural clauses: no truncating division of possibly-negative epoch-relative values in shared::util::itime (interval analysis), duplicated range constants and the month table agree, the generated copy of the shared code is token-identical. Does NOT decide that the Neri-Schneider arithmetic is the Gregorian calendar.", "4/C01"),
- "C02": ("FLOOR-A + REQ-DEP + SPLIT + CONST-AGREE + DEP (must-depend table over a may-dependence analysis) + SIGN-PAIR (sign-case and path-restricted interval analysis)",
-         "Flooring discipline of the instant<->civil split, the sign fix-up of IDateTime::to_timestamp depends on the offset, limit constants agree. Offset::to_datetime/to_timestamp depend on every field of the instant/datetime and on the offset; at every construction of an instant the (seconds, nanoseconds) pair is sign-consistent. Does NOT decide exactness of the conversion.", "4/C02"),
- "C03": ("FLOOR-B + FLOOR-A + PARSE-ORDER + FIND-KEY + CONST-AGREE + E5 + DEP + IN-DST (def-use, dominance, dependence and table rules over rustc MIR)",
-         "Transition lookups key on floor/ceil of fractional instants, TZif parse steps are ordered and verified, constants and the two copies agree. Every instant->offset lookup (TZif and POSIX) depends on the sub-second part of the instant; DST membership of POSIX rules is decided by DstInfo::in_dst alone. Does NOT decide agreement with tzdata.", "4/C03"),
- "C05": ("E1 panic reachability over the resolved call graph + interval/length abstract interpretation + CONTRACT/PRECOND",
+ "C02": ("FLOOR-A + REQ-DEP + SPLIT + CONST-AGREE + DEP (must-depend table over a may-dependence analysis) + SIGN-PAIR (sign-case and path-restricted interval analysis) + PUBLIC-PRECOND + FLOOR-PRINT",
+         "Flooring discipline of the instant<->civil split, the sign fix-up of IDateTime::to_timestamp depends on the offset, limit constants agree. Offset::to_datetime/to_timestamp depend on every field of the instant/datetime and on the offset; at every construction of an instant the (seconds, nanoseconds) pair is sign-consistent. Exported constructors test the ranges they rely on (PUBLIC-PRECOND); %s prints the floor of the instant. Does NOT decide exactness of the conversion.", "4/C02"),
+ "C03": ("FLOOR-B + FLOOR-A + PARSE-ORDER + FIND-KEY + CONST-AGREE + E5 + DEP + IN-DST + HANDOVER (def-use, dominance, dependence and table rules over rustc MIR)",
+         "Transition lookups key on floor/ceil of fractional instants, TZif parse steps are ordered and verified, constants and the two copies agree. Every instant->offset lookup (TZif and POSIX) depends on the sub-second part of the instant; DST membership of POSIX rules is decided by DstInfo::in_dst alone; the footer's rule is consulted only past the last recorded transition and its answer is compared with it. Does NOT decide agreement with tzdata.", "4/C03"),
+ "C05": ("E1 panic reachability over the resolved call graph + interval/length abstract interpretation + CONTRACT/PRECOND/PUBLIC-PRECOND + call-site obligations for panicking operators and documented panics",
          "Every panic site reachable from a Result-returning public function is discharged by a sound local rule, a reviewed reason or a known finding; field/parameter contracts assumed by the interval analysis are checked at every store/call. Over-approximate (no path feasibility beyond the listed rules). Does NOT decide that Ok values are the right values.", "4/C05"),
- "C04": ("STRATEGY-TABLE + KIND-TABLE + LOOKUP-TABLE (decision tables from MIR path conditions) + E1 + FLOOR-A",
-         "The four disambiguation strategies and the gap/fold bookkeeping of the TZif and POSIX lookups are exactly the documented finite tables (extracted from the type-checked program with path conditions); no panic site is reachable from the civil->instant resolution without a discharge; wall-clock window arithmetic floors. The POSIX rule is consulted only after the Gap/Fold switch over the matched transition; lookups depend on every field of the civil datetime (DEP). Does NOT decide agreement of the precomputed tables with each zone's data.", "4/C04"),
+ "C04": ("STRATEGY-TABLE + KIND-TABLE + LOOKUP-TABLE (decision tables from MIR path conditions) + HANDOVER (civil clause) + DEP + E1 + FLOOR-A",
+         "The four disambiguation strategies and the gap/fold bookkeeping of the TZif and POSIX lookups are exactly the documented finite tables (extracted from the type-checked program with path conditions); no panic site is reachable from the civil->instant resolution without a discharge; wall-clock window arithmetic floors. The POSIX rule is consulted only after the Gap/Fold switch over the matched transition; lookups depend on every field of the civil datetime (DEP); a candidate offset reported by the footer's rule is accepted only after its instant was tested against the recorded transitions (HANDOVER). Does NOT decide agreement of the precomputed tables with each zone's data.", "4/C04"),
  "C06": ("PIPELINE + CIVIL-PIPELINE (symbolic provenance terms) + DEP (must-depend table over a field-sensitive inter-procedural may-dependence analysis)",
-         "Zoned::checked_add/sub, start_of_day, end_of_day are exactly the documented composition of named steps (calendar part on the civil datetime, compatible resolution, time part on the instant, same zone). Every return alternative of zoned/instant/civil addition depends on every unit of the span (resp. both fields of the duration) and on the zone; only_calendar/only_time keep each unit of their side. The calendar step clamps the day once against the combined target month (CIVIL-PIPELINE). Does NOT decide that each step computes the right value.", "4/C06"),
- "C07": ("E1 panic reachability from the difference APIs + TWIN + TZ-DEP (provenance terms)",
-         "No panic site reachable from until/since/duration_* without a discharge; since is until with one negation, duration twins swap operands; every non-error return of the zoned difference depends on re-resolving an intermediate civil datetime in the zone. Difference kernels depend on both operands' fields and on the rounding options (DEP). Does NOT decide a + s == b, balance or sign consistency.", "4/C07"),
- "C08": ("PIPELINE + SATURATING-TABLE + CONTRACT/PRECOND + E2 ranged-integer value analysis (O-WRAPMOD etc.)",
-         "Date::checked_add_span is the documented order of checked steps; saturating variants clamp by the operand's sign; no wrap-then-modulo and no unchecked out-of-range ranged value in civil arithmetic (one recorded known finding: Time::wrapping_add_span). Civil additions depend on every unit of the span on every non-shortcut return (DEP). Does NOT decide equality with wide-integer reference arithmetic.", "4/C08"),
+         "Zoned::checked_add/sub, start_of_day, end_of_day are exactly the documented composition of named steps (calendar part on the civil datetime, compatible resolution, time part on the instant, same zone; the start of a day is the first instant of the civil date, also when midnight is in a gap). Every return alternative of zoned/instant/civil addition depends on every unit of the span (resp. both fields of the duration) and on the zone; only_calendar/only_time keep each unit of their side. The calendar step clamps the day once against the combined target month (CIVIL-PIPELINE). Does NOT decide that each step computes the right value.", "4/C06"),
+ "C07": ("E1 panic reachability from the difference APIs + TWIN + TZ-DEP + UNTIL-SEARCH (provenance terms and path conditions) + ERR-BOTH + DEP",
+         "No panic site reachable from until/since/duration_* without a discharge; since is until with one negation, duration twins swap operands; every non-error return of the zoned difference depends on re-resolving an intermediate civil datetime in the zone. Difference kernels depend on both operands' fields and on the rounding options (DEP); when the order of the civil dates is not the order of the instants the zoned difference is the exact elapsed time, and no failure of the intermediate-datetime search is selected by the direction (UNTIL-SEARCH). Does NOT decide a + s == b, balance or sign consistency.", "4/C07"),
+ "C08": ("PIPELINE + SATURATING-TABLE + CONTRACT/PRECOND + E2 ranged-integer value analysis (O-WRAPMOD etc.) + ERR-BOTH + DEP",
+         "Date::checked_add_span is the documented order of checked steps; saturating variants clamp by the operand's sign; no wrap-then-modulo and no unchecked out-of-range ranged value in civil arithmetic (one recorded known finding: Time::wrapping_add_span). Civil additions depend on every unit of the span on every non-shortcut return (DEP); an error of a binary operation is decided by both operands, not by one alone (ERR-BOTH). Does NOT decide equality with wide-integer reference arithmetic.", "4/C08"),
  "C09": ("RESOLVE-CANDIDATE (provenance terms, one level of helper inlining) + ROUND-AGREE (printer/parser rounding table) + DEP (writer-parameter dependence of the default printers)",
          "Narrow structural conditions of the default print->parse round trip: an offset accepted through the parser's minute-rounding tolerance pins a fold to the zone's own matching candidate offset (so folds with sub-minute offsets return to the identical instant); printer and parser round offsets the same way; the printed text depends on every field of the value. Does NOT decide round-trip equality of values, RFC 3339/9557 conformance of the text or agreement with an independent reader.", "9.9"),
- "C10": ("INCREMENT-TABLE + ROUND-TABLE (truth-table enumeration over the CFG) + NONINTERFERENCE + PIPELINE + E2",
-         "Increment tables equal the unit-constant ratios; the 9 rounding modes' increment conditions equal Temporal's table; the day carry does not depend on the year; zoned rounding pipelines are the documented composition; rounded results are range-checked. Tie atoms are recognised only in forms exact for odd increments; rounding results depend on value, smallest, mode and increment (DEP). Does NOT decide concrete neighbours beyond the tables.", "4/C10"),
- "C13": ("ZONED-CONSTRUCT + EQ-FIELDS + TZ-CHANGE (symbolic provenance terms over rustc MIR) + SIGN-PAIR",
+ "C10": ("INCREMENT-TABLE + ROUND-TABLE (truth-table enumeration over the CFG) + NONINTERFERENCE + PIPELINE + INCREMENT-VALIDATED + TRUNC-SPLIT + DEP + E2",
+         "Increment tables equal the unit-constant ratios; the 9 rounding modes' increment conditions equal Temporal's table; the day carry does not depend on the year; zoned rounding pipelines are the documented composition; rounded results are range-checked. Tie atoms are recognised only in forms exact for odd increments; rounding results depend on value, smallest, mode and increment (DEP); every rounding entry point validates the increment against the next larger unit; a day's length in zoned rounding is start-of-day to start-of-next-day. Does NOT decide concrete neighbours beyond the tables.", "4/C10"),
+ "C13": ("ZONED-CONSTRUCT + EQ-FIELDS + TZ-CHANGE (symbolic provenance terms over rustc MIR) + SIGN-PAIR + EQ-HASH",
          "A Zoned is only assembled from parts derived from (tz, ts) or the unambiguous civil lookup for the same dt; Eq/Ord/Hash read only the instant; zone changes keep the instant. Every instant has one representation (sign-consistent seconds/nanoseconds), which is what field-wise Eq/Ord/Hash need.", "4/C13"),
- "C14": ("FLOOR-B + ITER-FEEDBACK + FLOOR-A + DEP + IN-DST (def-use and dependence rules over rustc MIR)",
-         "preceding/following key on ceil/floor, adapters feed the yielded instant back. Transition walkers depend on the sub-second part of the instant; POSIX walkers label transitions through DstInfo::in_dst. Does NOT decide completeness.", "4/C14"),
+ "C14": ("FLOOR-B + ITER-FEEDBACK + FLOOR-A + DEP + IN-DST + HANDOVER + NOOP-SKIP (def-use, dominance and dependence rules over rustc MIR)",
+         "preceding/following key on ceil/floor, adapters feed the yielded instant back. Transition walkers depend on the sub-second part of the instant; POSIX walkers label transitions through DstInfo::in_dst; the last recorded transition is yielded before the footer's rule takes over; entries that change nothing are skipped by comparing adjacent local time types. Does NOT decide completeness in general.", "4/C14"),
  "C17": ("E1 panic reachability from parser and lookup roots + VALIDATED-FIELD + NO-RECURSION",
          "No panic site is reachable from any parser entry point or from lookups on a parsed zone without a discharge; validated TZif fields feed the unchecked consumers; parser recursion depth is bounded by a constant. Every use of a panicking operator of jiff's own value types on a parser path is its own obligation. Does NOT decide termination or work proportional to input.", "4/C17"),
- "C18": ("E5 token-level drift check + FIND-KEY + PARSE-ORDER + FOLD-AGREE",
-         "One parser, one copy: src/shared/** and crates/jiff-static/src/shared/** are token-identical modulo the generator's transformations. The name comparator folds case the same way as the sort key of the name list. Does NOT decide behavioural equivalence of back-ends.", "4/C18"),
+ "C18": ("E5 token-level drift check + FIND-KEY + PARSE-ORDER + FOLD-AGREE + SPECIAL-NAMES (sibling agreement, incl. the bundled back-end from configuration T3) + HANDOVER + NOOP-SKIP",
+         "One parser, one copy: src/shared/** and crates/jiff-static/src/shared/** are token-identical modulo the generator's transformations. The name comparator folds case the same way as the sort key of the name list; all database back-ends special-case the same names, case-insensitively; the two places where slim and fat data differ structurally (hand-over to the footer's rule, no-op entries) are handled. Does NOT decide behavioural equivalence of back-ends in general.", "4/C18"),
  "C20": ("E6: tag-specialised abstract interpretation of Repr (TAG-TABLE, ALIGN, PAIRING, DISPATCH, CONSTRUCT, SEND-SYNC)",
          "The refcount/tag/alignment argument of the tagged pointer: per tag, construct=+1, clone=+1, drop=-1, getters=0 with matching pointee types on every feasible path. Clone and Drop strip the tag with the same !BITS mask as the getters. Does NOT decide races inside Arc or allocator behaviour.", "4/C20"),
- "C11": ("REL-GUARD + WINDOW + ROUNDED-OUTPUT + NO-OVERWRITE (provenance terms and path conditions) + FLOAT-SIGN + FLOAT-DIV (float sign and division pitfalls) + E1 + E2",
-         "Calendar units are refused without a reference datetime on every path of round/total/compare; the start and end of every rounding window are measured from the reference, not from each other; Span entry points cannot panic without a discharge; ranged values in span.rs stay in range. The sub-day part of a rounded span is directly a rounding result; float signum is never used as a three-valued sign and float tie tests use absolute values. A unit setter never replaces a unit that from_invariant_nanoseconds just computed; every float division has a divisor that cannot be zero. Does NOT decide that the rounded span is the mode-prescribed neighbour, nor totals or comparisons as values.", "4/C11"),
- "C12": ("SETTER-TABLE + SIGN-WRITERS + SIGN-GUARD + SIGN-PAIR + LONE-ABS + DEP + CONTRACT/PRECOND + E1 + E2",
-         "Each Span unit setter goes through the checked constructor of that unit's own ranged type; the sign field has a fixed reviewed set of writers; every SignedDuration/Duration conversion returns Ok only under a whole-value sign check; no panic site reachable from the fallible SignedDuration API without a discharge. (seconds, nanoseconds) pairs are sign-consistent at every construction (patterns, sign-case and path-restricted intervals); no component-wise abs without reading the whole sign; SignedDuration/Span operations depend on every field (DEP). Does NOT decide equality with 128-bit reference arithmetic.", "4/C12"),
+ "C11": ("REL-GUARD + WINDOW + ROUNDED-OUTPUT + NO-OVERWRITE (provenance terms and path conditions) + WEEK-CARRY + FLOAT-EXACT + FLOAT-SIGN + FLOAT-DIV (float pitfalls, with a control crate for zero-instance rules) + E1 + E2",
+         "Calendar units are refused without a reference datetime on every path of round/total/compare; the start and end of every rounding window are measured from the reference, not from each other; Span entry points cannot panic without a discharge; ranged values in span.rs stay in range. The sub-day part of a rounded span is directly a rounding result; float signum is never used as a three-valued sign and float tie tests use absolute values. A unit setter never replaces a unit that from_invariant_nanoseconds just computed; every float division has a divisor that cannot be zero; no 64/128-bit count becomes a float on a rounding path; whole weeks carried in the days position the week window. Does NOT decide that the rounded span is the mode-prescribed neighbour, nor totals or comparisons as values.", "4/C11"),
+ "C12": ("SETTER-TABLE + SIGN-WRITERS + SIGN-GUARD + SIGN-PAIR + LONE-ABS + TRUNC-SPLIT + EQ-HASH + ERR-BOTH + DEP + CONTRACT/PRECOND + E1 + E2",
+         "Each Span unit setter goes through the checked constructor of that unit's own ranged type; the sign field has a fixed reviewed set of writers; every SignedDuration/Duration conversion returns Ok only under a whole-value sign check; no panic site reachable from the fallible SignedDuration API without a discharge. (seconds, nanoseconds) pairs are sign-consistent at every construction (patterns, sign-case and path-restricted intervals); no component-wise abs without reading the whole sign; SignedDuration/Span operations depend on every field (DEP); Hash feeds only fields that Eq compares; errors of binary operations are decided by both operands. Does NOT decide equality with 128-bit reference arithmetic.", "4/C12"),
  "C15": ("LABEL-TABLE + NO-DROP + WHOLE-SIGN + COMMA-WS + DEP (writer-parameter dependence) + LONE-ABS + E1",
          "Every designator label the friendly printer can emit maps back, in the parser's table, to the same unit; the printers consume every unit of the span/duration (no unit is dropped); no panic site reachable from the duration parsers/printers without a discharge. The text written by every duration printer depends on every unit (resp. seconds and nanoseconds); no component-wise abs without the whole sign. The printed sign is the sign of the whole value; whatever follows a comma starts with whitespace. Does NOT decide round-trip equality of values.", "4/C15"),
- "C16": ("SPECIFIER-SET + NAME-TABLE + CHECKED-FIELD + SIGN-SOURCE (dispatch tables and provenance terms from MIR) + E1",
-         "The formatter and parser dispatch on agreeing specifier sets; month/weekday name tables of printer and parser agree (one recorded known finding: the parser's 'Tueday'); a parsed weekday is compared against the date on every success path; the printed offset sign is derived from the offset; strtime/RFC 2822 parsers cannot panic without a discharge. Does NOT decide that each specifier prints the C-library value.", "4/C16"),
- "C19": ("LOCK-ORDER + FRESH-GUARD + LOCK-SCOPE + RECHECK + NO-UNSAFE + FOLD-AGREE (lock acquisition order, guard liveness and dominance over MIR)",
+ "C16": ("SPECIFIER-SET + NAME-TABLE + CHECKED-FIELD + SIGN-SOURCE + FLOOR-PRINT + DEP (dispatch tables, provenance terms and dependence from MIR) + E1",
+         "The formatter and parser dispatch on agreeing specifier sets; month/weekday name tables of printer and parser agree (one recorded known finding: the parser's 'Tueday'); a parsed weekday is compared against the date on every success path; the printed offset sign is derived from the offset; the text of every hour/meridiem directive depends on the meridiem, %s prints the floor; strtime/RFC 2822 parsers cannot panic without a discharge. Does NOT decide that each specifier prints the C-library value.", "4/C16"),
+ "C19": ("LOCK-ORDER + FRESH-GUARD + LOCK-SCOPE + RECHECK + NO-UNSAFE + FOLD-AGREE + SPECIAL-NAMES (lock acquisition order, guard liveness and dominance over MIR)",
          "Lock discipline of the zoneinfo/concatenated/bundled databases: locks are acquired in one global order and never nested re-entrantly, a cached entry is returned only under the TTL/metadata freshness guard, write locks are held across check-and-insert, the modules contain no unsafe. After a miss under the read lock every answer is preceded by a fresh search under the write lock; the name comparator agrees with the sort key. Does NOT decide history independence or linearizability of lookups as values.", "4/C19"),
 }
 NA = {
